@@ -346,7 +346,13 @@ def cov_input(draw, m):
     elif kind == 'vector':
         var = [draw(st.integers(0, 64)) / 64.0 * scale for _ in range(size)]
     elif kind == 'matrix':
-        var = (draw(psd(size)) * scale).tolist()
+        var = draw(psd(size))
+        if draw(st.integers(0, 3)) == 0:
+            # a stored covariance need not be a sample covariance: the corrected estimates the
+            # library itself stores (difference of two bootstrap covariances) can be indefinite,
+            # with negative entries on the diagonal - the contrasts are defined all the same
+            var = var - 1.5 * draw(psd(size))
+        var = (var * scale).tolist()
     else:
         mode = draw(st.sampled_from(['free', 'nested', 'nested']))
         v1 = draw(psd(size))
@@ -426,6 +432,8 @@ def check_variances(case):
     compare_variances((res.model_var, res.diff_var, res.noise_ceil_var), own,
                       'Result(%s covariance %s ceiling rows)' % (
                           cov['kind'], 'with' if cov['nc'] else 'without'), 'variances:result')
+    if np.any(np.asarray(own['model']) < 0):
+        return      # no standard error is defined for a negative variance estimate
     sem = res.get_sem()
     require(bool(np.all(np.asarray(sem) >= 0)) and not np.isnan(sem).any(),
             'get_sem negative or NaN: %s' % core._short(sem), 'variances:sem-negative')
